@@ -21,6 +21,9 @@ def gen_case(rng, idx):
     t = len(losses)
     leaves = [x for x in range(prog.n()) if prog.is_leaf[x] and prog.req[x]]
     calls = []
+    # nested features share graph nodes between the tasks' sweeps: a documented limit of
+    # retain_graph=False (C13's side condition), so such programs are driven with retain_graph=True
+    nested = any(a != b and prog.reach(a, b) for a in feats for b in feats)
     variants = [(None, None), (tasks, shared), (tasks, None), (None, shared)]
     for k in [None, 1, 2, t + 1]:
         tp, sp = rng.choice(variants)
@@ -29,7 +32,7 @@ def gen_case(rng, idx):
         if sp is not None and rng.random() < 0.5:
             sp = list(reversed(sp))
         call = {"entry": "mtl", "losses": losses, "features": feats, "tasks": tp, "shared": sp,
-                "agg": ajcheck.rand_agg(rng, t), "k": k, "retain": False,
+                "agg": ajcheck.rand_agg(rng, t), "k": k, "retain": nested,
                 "single_feature": len(feats) == 1 and rng.random() < 0.5}
         calls.append(ajcheck.prepare_call(prog, call))
     return {"id": idx, "prog": prog.to_json(), "calls": calls, "old": ajcheck.rand_old(rng, prog, leaves),
